@@ -29,7 +29,7 @@ func c01Configs(tier string) []aofCfg {
 			for _, pipe := range []bool{false, true} {
 				for _, cnt := range []uint{1, 2, 64} {
 					for _, bytes := range []uint64{8, 1 << 20} {
-						for _, db := range []string{"id", "map12", "all0"} {
+						for _, db := range []string{"id", "map12", "all0", "shift", "swap"} {
 							out = append(out, aofCfg{Txn: txn, Resume: true, Pipeline: pipe, Count: cnt, Bytes: bytes, DbMode: db})
 						}
 					}
@@ -47,6 +47,8 @@ func c01Configs(tier string) []aofCfg {
 		{Txn: false, Resume: true, Pipeline: true, Count: 64, Bytes: 1 << 20, DbMode: "id"},
 		{Txn: true, Resume: true, Pipeline: false, Count: 64, Bytes: 1 << 20, DbMode: "all0"},
 		{Txn: false, Resume: false, Pipeline: false, Count: 2, Bytes: 1 << 20, DbMode: "id"},
+		{Txn: true, Resume: true, Pipeline: false, Count: 2, Bytes: 1 << 20, DbMode: "shift"},
+		{Txn: false, Resume: true, Pipeline: true, Count: 2, Bytes: 1 << 20, DbMode: "swap"},
 	}
 }
 
